@@ -32,6 +32,7 @@ type hostedObj struct {
 	px      probe.HelperProxy
 	removed bool
 	how     string
+	via     bus.Service
 }
 
 func c16hosted(c *wk.Ctx, i int, rng *rand.Rand) {
@@ -40,12 +41,18 @@ func c16hosted(c *wk.Ctx, i int, rng *rand.Rand) {
 	defer b.Close()
 	serviceID := uint32(2 + rng.Intn(60))
 	service := bus.NewServiceReference(nil, a, serviceID)
+	// one plan in three: TWO references to the same service on the same connection (what two calls of
+	// Proxy.ProxyService give); objects are added through either of them
+	services := []bus.Service{service}
+	if rng.Intn(3) == 0 {
+		services = append(services, bus.NewServiceReference(nil, a, serviceID))
+	}
 	client := bus.NewClient(bus.NewContext(b))
 	var progress int64
 	var mu sync.Mutex
 	var objs []*hostedObj
 	seq := 0
-	detail := map[string]interface{}{"service": serviceID}
+	detail := map[string]interface{}{"service": serviceID, "references_to_the_service": len(services)}
 
 	// wait runs f in a goroutine and waits for it with the quiescence detector
 	wait := func(what string, f func()) bool {
@@ -79,7 +86,7 @@ func c16hosted(c *wk.Ctx, i int, rng *rand.Rand) {
 				if nested {
 					cim := svc.NewHelper(name + ".child")
 					if id, err := act.Service.Add(probe.HelperObject(cim)); err == nil {
-						child = &hostedObj{im: cim, id: id}
+						child = &hostedObj{im: cim, id: id, via: act.Service}
 					}
 				}
 				if failing {
@@ -88,10 +95,11 @@ func c16hosted(c *wk.Ctx, i int, rng *rand.Rand) {
 				return nil
 			}
 		}
-		id, err := service.Add(probe.HelperObject(im))
+		via := services[r.Intn(len(services))]
+		id, err := via.Add(probe.HelperObject(im))
 		mu.Lock()
 		if err == nil {
-			objs = append(objs, &hostedObj{im: im, id: id})
+			objs = append(objs, &hostedObj{im: im, id: id, via: via})
 		}
 		if child != nil {
 			objs = append(objs, child)
@@ -246,7 +254,7 @@ func c16hosted(c *wk.Ctx, i int, rng *rand.Rand) {
 	removeOne := func(k int, o *hostedObj) {
 		switch o.how {
 		case "Service.Remove":
-			errs[k] = service.Remove(o.id)
+			errs[k] = o.via.Remove(o.id)
 		case "remote terminate":
 			errs[k] = o.px.Terminate(o.id)
 		default:
